@@ -207,8 +207,15 @@ end generic
 /-- the first eight primes -/
 def primes8 : List Nat := [2, 3, 5, 7, 11, 13, 17, 19]
 
+/-- integer square root by binary search over the bits `k-1 … 0` (characterised in Proofs.Blake2Tables.isqrt_spec_iv) -/
+def isqrtAux (n : Nat) : Nat → Nat → Nat
+  | 0, r => r
+  | k + 1, r => isqrtAux n k (if (r + 2 ^ k) * (r + 2 ^ k) ≤ n then r + 2 ^ k else r)
+
+def isqrt (n : Nat) : Nat := isqrtAux n (n.log2 / 2 + 1) 0
+
 /-- section 2.6: IV[i] = floor(2^w · frac(sqrt(prime(i+1)))) — the SHA-512 / SHA-256 initial values -/
-def ivNat (w : Nat) (i : Nat) : Nat := Nat.sqrt (primes8.getD i 0 * 2 ^ (2 * w)) % 2 ^ w
+def ivNat (w : Nat) (i : Nat) : Nat := isqrt (primes8.getD i 0 * 2 ^ (2 * w)) % 2 ^ w
 
 def ivB : Vector UInt64 8 := Vector.ofFn fun i => UInt64.ofNat (ivNat 64 i.val)
 def ivS : Vector UInt32 8 := Vector.ofFn fun i => UInt32.ofNat (ivNat 32 i.val)
